@@ -198,14 +198,19 @@ class EvalBounded(BoundedCheck):
             expr, want = f'{helper_var} + X', data[helper_var] + data['X']
         elif r < 0.5:
             res.cover('undefined-name')
-            try:
-                c.eval('X + Q_undefined')
-                out.append(Violation('an undefined name is reported as AttributeError naming it', 'c16.eval.undefined-accepted', case, 'AttributeError', 'returned'))
-            except AttributeError as ex:
-                if 'Q_undefined' not in str(ex):
-                    out.append(Violation('an undefined name is reported as AttributeError naming it', 'c16.eval.undefined-not-named', case, 'Q_undefined', str(ex)[:80]))
-            except Exception as ex:  # noqa: BLE001
-                out.append(Violation('an undefined name is reported as AttributeError', f'c16.eval.undefined:{type(ex).__name__}', case, 'AttributeError', type(ex).__name__))
+            # one undefined name close to a variable name (a suggestion exists), one close to none
+            used = set(''.join(data).lower())
+            far = next(ch for ch in 'qwkjvbnmprt' if ch not in used) * 4          # shares no character with any variable name: no suggestion at any cutoff
+            for undefined in ('Q_undefined', next(iter(data)) + '_', far):
+                try:
+                    c.eval(f'X + {undefined}')
+                    out.append(Violation('an undefined name is reported as AttributeError naming it', 'c16.eval.undefined-accepted', case, 'AttributeError', 'returned'))
+                except AttributeError as ex:
+                    if undefined not in str(ex):
+                        out.append(Violation('an undefined name is reported as AttributeError naming it', 'c16.eval.undefined-not-named', case, undefined, str(ex)[:80]))
+                except Exception as ex:  # noqa: BLE001
+                    out.append(Violation('an undefined name is reported as AttributeError', f'c16.eval.undefined:{type(ex).__name__}', dict(case, name=undefined) if isinstance(case, dict) else case,
+                                         'AttributeError', type(ex).__name__))
             return out
         has_bt = '`' in expr
         has_pos_slice = any(k == 'positional' for k in kinds) and ':' in ''.join(p for p in expr.split('`')[::2])
